@@ -3,6 +3,8 @@
   Property theorems only.  All statements are for every value of every component (no bounds).
 -/
 import DymVerif.Lemmas.Keys
+import DymVerif.Lemmas.Keys2
+import DymVerif.Lemmas.Keys3
 import DymVerif.Gen.Keys
 import DymVerif.Lemmas.GenEqKeys
 namespace DymVerif.C19
@@ -196,5 +198,572 @@ theorem demand_order_key_injective (st st' : Status) (i i' : Bytes)
 example : sep ∉ ([114, 111, 108, 108, 95, 49, 45, 49] : Bytes) ∧ (256 : Nat) < 2 ^ 64 := by decide
 example : Bytes.WF (rollappPacketKey .pending [114] 1 .onRecv [99] 256) := by
   intro x hx; revert x; decide
+
+/-! ## Time-sorted keys (sdk.FormatTimeBytes, the sequencer notice queue)
+
+Width hypothesis, stated once: `TimeF.InRange` = year < 10000 and every other field within its
+printed width (month, day, hour, minute, second < 100, nanosecond < 10^9).  Go's calendar gives
+month 1..12, day 1..31, hour < 24, minute, second < 60, nanosecond < 10^9 (`TimeF.Calendar`), so for
+real `time.Time` values the only genuine restriction is 0 ≤ year ≤ 9999. -/
+
+/-- C19 "round-trips exactly / names one and only one object": the sortable time format is injective
+    on in-range calendar fields -/
+theorem time_format_injective (a b : TimeF) (ha : a.InRange) (hb : b.InRange)
+    (h : fmtTime a = fmtTime b) : a = b := fmtTime_inj a b ha hb h
+
+/-- C19 "composite store keys sort by ... time numerically": byte order of `sdk.FormatTimeBytes`
+    = lexicographic order of (year, month, day, hour, minute, second, nanosecond), i.e. chronological
+    order, for all in-range fields -/
+theorem time_format_order (a b : TimeF) (ha : a.InRange) (hb : b.InRange) :
+    lexLt (fmtTime a) (fmtTime b) = lexLt a.fields b.fields := lexLt_fmtTime a b ha hb
+
+/-- real `time.Time` fields with year ≤ 9999 are in range -/
+theorem time_calendar_in_range (t : TimeF) (h : t.Calendar) : t.InRange := h.inRange
+
+/-- outside the width hypothesis the order breaks: 10000-01-01 sorts *before* 9999-12-31 -/
+theorem time_format_order_counterexample :
+    let a : TimeF := ⟨10000, 1, 1, 0, 0, 0, 0⟩
+    let b : TimeF := ⟨9999, 12, 31, 23, 59, 59, 999999999⟩
+    lexLt (fmtTime a) (fmtTime b) = true ∧ lexLt a.fields b.fields = false := by decide
+
+/-- the notice-queue time keys sort chronologically -/
+theorem notice_queue_time_key_order (a b : TimeF) (ha : a.InRange) (hb : b.InRange) :
+    lexLt (noticeQueueByTimeKey a) (noticeQueueByTimeKey b) = lexLt a.fields b.fields := by
+  simp only [noticeQueueByTimeKey, encodeTimeToKey, lexLt_append_left]
+  exact lexLt_fmtTime a b ha hb
+
+/-- full notice-queue keys (time, sequencer address): an entry with an earlier time sorts before an
+    entry with a later time, whatever the two addresses are -/
+theorem notice_queue_key_order (a b : TimeF) (x y : Bytes) (ha : a.InRange) (hb : b.InRange)
+    (hlt : lexLt a.fields b.fields = true) :
+    lexLt (noticeQueueBySeqTimeKey x a) (noticeQueueBySeqTimeKey y b) = true := by
+  simp only [noticeQueueBySeqTimeKey, noticeQueueByTimeKey, encodeTimeToKey, List.append_assoc,
+    lexLt_append_left]
+  exact lexLt_append_of_lt _ _ _ _ (by rw [fmtTime_length a ha, fmtTime_length b hb])
+    (by rw [lexLt_fmtTime a b ha hb]; exact hlt)
+
+/-- the (time, sequencer address) key names exactly one (time, address) pair -/
+theorem notice_queue_key_injective (a b : TimeF) (x y : Bytes) (ha : a.InRange) (hb : b.InRange)
+    (e : noticeQueueBySeqTimeKey x a = noticeQueueBySeqTimeKey y b) : a = b ∧ x = y := by
+  simp only [noticeQueueBySeqTimeKey, noticeQueueByTimeKey, encodeTimeToKey, noticePeriodQueueKey,
+    List.append_assoc, List.cons_append, List.nil_append, List.cons.injEq, true_and] at e
+  have e1 := List.append_inj e (by rw [fmtTime_length a ha, fmtTime_length b hb])
+  exact ⟨fmtTime_inj a b ha hb e1.1, (List.cons.inj e1.2).2⟩
+
+/-- **the notice-queue scan** `Iterator(0x42, PrefixEndBytes(NoticeQueueByTimeKey(T)))` (how
+    `NoticeElapsedProposers` reads the queue) returns an entry (t, addr) exactly when t ≤ T -/
+theorem notice_queue_scan_exact (T t : TimeF) (addr : Bytes) (hT : T.InRange) (ht : t.InRange) :
+    inRangeO (noticeQueueRange T).1 (noticeQueueRange T).2 (noticeQueueBySeqTimeKey addr t)
+      = !(lexLt T.fields t.fields) := by
+  obtain ⟨q, hq, hql⟩ := fmtTime_snoc T hT
+  have hd : 48 + T.ns % 10 ≠ 255 := by omega
+  have hend : prefixEnd (noticeQueueByTimeKey T) = some ((0x42 :: q) ++ [48 + T.ns % 10 + 1]) := by
+    simp only [noticeQueueByTimeKey, encodeTimeToKey, noticePeriodQueueKey, hq]
+    exact prefixEnd_snoc (0x42 :: q) _ hd
+  have hnil : ∀ s : Bytes, lexLt s [] = false := by intro s; cases s <;> rfl
+  have hlo : lexLe noticePeriodQueueKey (noticeQueueBySeqTimeKey addr t) = true := by
+    simp [lexLe, noticeQueueBySeqTimeKey, noticeQueueByTimeKey, encodeTimeToKey, noticePeriodQueueKey,
+      lexLt, hnil]
+  simp only [noticeQueueRange, inRangeO, hend, hlo, Bool.true_and]
+  have hk : noticeQueueBySeqTimeKey addr t = (0x42 :: fmtTime t) ++ ([sep] ++ addr) := by
+    simp [noticeQueueBySeqTimeKey, noticeQueueByTimeKey, encodeTimeToKey, noticePeriodQueueKey]
+  rw [hk, lexLt_succ_last (0x42 :: q) _ (0x42 :: fmtTime t) _ (by simp [fmtTime_length t ht, hql])]
+  have : (0x42 :: q) ++ [48 + T.ns % 10] = 0x42 :: fmtTime T := by rw [hq]; rfl
+  rw [this]
+  have : lexLt (0x42 :: fmtTime T) (0x42 :: fmtTime t) = lexLt (fmtTime T) (fmtTime t) := by simp [lexLt]
+  rw [this, lexLt_fmtTime T t hT ht]
+
+/-- the notice-queue scan never returns a key of another family of the sequencer store: everything in
+    its range starts with the queue prefix 0x42 -/
+theorem notice_queue_scan_only_queue (T : TimeF) (K : Bytes) (hT : T.InRange)
+    (h : inRangeO (noticeQueueRange T).1 (noticeQueueRange T).2 K = true) :
+    isPrefix noticePeriodQueueKey K = true := by
+  obtain ⟨q, hq, _⟩ := fmtTime_snoc T hT
+  have hd : 48 + T.ns % 10 ≠ 255 := by omega
+  have hend : prefixEnd (noticeQueueByTimeKey T) = some ([0x42] ++ (q ++ [48 + T.ns % 10 + 1])) := by
+    simp only [noticeQueueByTimeKey, encodeTimeToKey, noticePeriodQueueKey, hq]
+    exact prefixEnd_snoc (0x42 :: q) _ hd
+  cases hx : isPrefix noticePeriodQueueKey K with
+  | true => rfl
+  | false =>
+    have := not_prefix_not_inRange noticePeriodQueueKey [] (q ++ [48 + T.ns % 10 + 1]) K hx
+    simp only [noticeQueueRange, inRangeO, hend] at h
+    simp only [inRange, List.append_nil, noticePeriodQueueKey] at this h
+    rw [this] at h; exact absurd h (by decide)
+
+/-- sequencer-by-address, proposer and successor keys: each injective in its component … -/
+theorem sequencer_key_injective (a b : Bytes) (e : sequencerKey a = sequencerKey b) : a = b := by
+  simpa [sequencerKey] using e
+theorem proposer_key_injective (a b : Bytes) (e : proposerByRollappKey a = proposerByRollappKey b) : a = b := by
+  simpa [proposerByRollappKey] using e
+theorem successor_key_injective (a b : Bytes) (e : successorByRollappKey a = successorByRollappKey b) : a = b := by
+  simpa [successorByRollappKey] using e
+
+/-- … and the families (sequencer 0x00, by-rollapp 0x01, proposer 0x02, successor 0x03, notice
+    queue 0x42) are pairwise disjoint for all component values -/
+theorem sequencer_families_disjoint (a b c d e : Bytes) (st : OpStatus) (t : TimeF) :
+    sequencerKey a ≠ proposerByRollappKey b ∧ sequencerKey a ≠ successorByRollappKey c ∧
+    proposerByRollappKey b ≠ successorByRollappKey c ∧
+    sequencerKey a ≠ sequencerByRollappByStatusKey d e st ∧
+    proposerByRollappKey b ≠ sequencerByRollappByStatusKey d e st ∧
+    successorByRollappKey c ≠ sequencerByRollappByStatusKey d e st ∧
+    noticeQueueBySeqTimeKey a t ≠ sequencerKey b ∧ noticeQueueBySeqTimeKey a t ≠ proposerByRollappKey b ∧
+    noticeQueueBySeqTimeKey a t ≠ successorByRollappKey b ∧
+    noticeQueueBySeqTimeKey a t ≠ sequencerByRollappByStatusKey d e st := by
+  simp [sequencerKey, proposerByRollappKey, successorByRollappKey, sequencerByRollappByStatusKey,
+    sequencersByRollappByStatusKey, sequencersByRollappKey, noticeQueueBySeqTimeKey,
+    noticeQueueByTimeKey, encodeTimeToKey, noticePeriodQueueKey]
+
+-- non-vacuity (time keys): realistic in-range times, an entry inside and one outside a scan
+example : (⟨2024, 2, 29, 23, 59, 59, 999999999⟩ : TimeF).Calendar := by unfold TimeF.Calendar; decide
+example : (⟨0, 1, 1, 0, 0, 0, 0⟩ : TimeF).InRange ∧ (⟨9999, 12, 31, 23, 59, 59, 999999999⟩ : TimeF).InRange := by
+  unfold TimeF.InRange; decide
+example : inRangeO (noticeQueueRange ⟨2024, 3, 1, 0, 0, 0, 0⟩).1 (noticeQueueRange ⟨2024, 3, 1, 0, 0, 0, 0⟩).2
+    (noticeQueueBySeqTimeKey [100] ⟨2024, 3, 1, 0, 0, 0, 0⟩) = true ∧
+  inRangeO (noticeQueueRange ⟨2024, 3, 1, 0, 0, 0, 0⟩).1 (noticeQueueRange ⟨2024, 3, 1, 0, 0, 0, 0⟩).2
+    (noticeQueueBySeqTimeKey [100] ⟨2024, 3, 1, 0, 0, 0, 1⟩) = false := by decide
+
+/-! ## Buy-order ids (x/dymns): id = type prefix ("10" Dym-Name / "20" alias) ++ decimal number -/
+
+/-- C19 "every created id is valid": for every asset type and every positive uint64 `n`,
+    `CreateBuyOrderId` does not panic, returns prefix ++ decimal(n), and that id passes
+    `IsValidBuyOrderId` -/
+theorem buy_order_id_created_valid (t : AssetType) (n : Nat) (h0 : 0 < n) (h : n < 2 ^ 64) :
+    createBuyOrderId t n = some (buyOrderIdPrefix t ++ decStr n) ∧
+      isValidBuyOrderId (buyOrderIdPrefix t ++ decStr n) = true := by
+  have hp := parseBuyOrderId_create t n h0 h
+  simp [createBuyOrderId, isValidBuyOrderId, hp]
+
+/-- the edge, stated: number 0 is rejected by the validator, so `CreateBuyOrderId(_, 0)` panics
+    (the keeper's counter starts at 1) -/
+theorem buy_order_id_zero_panics (t : AssetType) : createBuyOrderId t 0 = none := by
+  cases t <;> decide
+
+/-- C19 "round-trips exactly": the id created for (type, n) decomposes back to exactly (type, n) -/
+theorem buy_order_id_roundtrip (t : AssetType) (n : Nat) (id : Bytes) (h0 : 0 < n) (h : n < 2 ^ 64)
+    (hc : createBuyOrderId t n = some id) : parseBuyOrderId id = some (t, n) := by
+  rw [(buy_order_id_created_valid t n h0 h).1] at hc
+  cases hc; exact parseBuyOrderId_create t n h0 h
+
+/-- C19 "names one and only one object": the id is injective over (type, number) — for every pair
+    of naturals (no bound needed) -/
+theorem buy_order_id_injective (t t' : AssetType) (n n' : Nat) (id : Bytes)
+    (h : createBuyOrderId t n = some id) (h' : createBuyOrderId t' n' = some id) : t = t' ∧ n = n' := by
+  have key : ∀ (t : AssetType) (n : Nat), createBuyOrderId t n = some id →
+      buyOrderIdPrefix t ++ decStr n = id := by
+    intro t n h
+    simp only [createBuyOrderId] at h
+    split at h
+    · exact Option.some.inj h
+    · exact absurd h (by simp)
+  have e : buyOrderIdPrefix t ++ decStr n = buyOrderIdPrefix t' ++ decStr n' := by
+    rw [key t n h, key t' n' h']
+  have e1 := List.append_inj e (by rw [buyOrderIdPrefix_length, buyOrderIdPrefix_length])
+  exact ⟨buyOrderIdPrefix_inj _ _ e1.1, decStr_inj _ _ e1.2⟩
+
+/-- the type re-check of `BuyOrder.Validate` (`strings.HasPrefix(id, prefix of the order's type)`)
+    accepts a created id for its own type only -/
+theorem buy_order_id_type_prefix (t t' : AssetType) (n : Nat) :
+    isPrefix (buyOrderIdPrefix t') (buyOrderIdPrefix t ++ decStr n) = true ↔ t' = t := by
+  constructor
+  · intro h
+    obtain ⟨r, e⟩ := (isPrefix_iff _ _).1 h
+    have := List.append_inj e (by rw [buyOrderIdPrefix_length, buyOrderIdPrefix_length])
+    exact (buyOrderIdPrefix_inj _ _ this.1).symm
+  · rintro rfl; exact isPrefix_append _ _
+
+/-- every id the validator accepts is a type prefix followed by a decimal string of a positive uint64 -/
+theorem buy_order_id_valid_shape (id : Bytes) (h : isValidBuyOrderId id = true) :
+    ∃ t n, parseBuyOrderId id = some (t, n) ∧ id = buyOrderIdPrefix t ++ id.drop 2 ∧
+      parseU64 (id.drop 2) = some n ∧ 0 < n ∧ n < 2 ^ 64 := by
+  unfold isValidBuyOrderId at h
+  cases hp : parseBuyOrderId id with
+  | none => simp [hp] at h
+  | some p =>
+    obtain ⟨t, n⟩ := p
+    have := parseBuyOrderId_some id t n hp
+    refine ⟨t, n, rfl, this.1, this.2.1, this.2.2, ?_⟩
+    have h2 := this.2.1
+    unfold parseU64 at h2
+    split at h2
+    · simp at h2
+    · split at h2
+      · split at h2
+        · cases h2; assumption
+        · simp at h2
+      · simp at h2
+
+/-- the validator is looser than the constructor: decimal strings with leading zeros are accepted,
+    so two distinct *valid* id strings can decompose to the same (type, number).  They are still two
+    different store keys (`BuyOrderKey` is the raw id string, see `dymns_*` below) and only the
+    canonical one is ever created, so no record is reachable under two names; recorded as a remark. -/
+theorem buy_order_id_validator_not_injective_counterexample :
+    let a : Bytes := [49, 48, 49]       -- "101"
+    let b : Bytes := [49, 48, 48, 49]   -- "1001"
+    a ≠ b ∧ isValidBuyOrderId a = true ∧ isValidBuyOrderId b = true ∧
+      parseBuyOrderId a = parseBuyOrderId b ∧ createBuyOrderId .name 1 = some a := by decide
+
+/-- … and that is the only looseness: a valid id whose number carries no leading zero IS the id
+    `CreateBuyOrderId` hands out for the (type, number) it decomposes to — on canonical ids the
+    decomposition is a bijection with (type, positive uint64) -/
+theorem buy_order_id_canonical_partial (id : Bytes) (t : AssetType) (n : Nat)
+    (hp : parseBuyOrderId id = some (t, n)) (hlead : ∀ c cs, id.drop 2 = c :: cs → c ≠ 48) :
+    createBuyOrderId t n = some id := by
+  obtain ⟨hshape, hnum, hpos⟩ := parseBuyOrderId_some id t n hp
+  have hn : n < 2 ^ 64 ∧ id.drop 2 ≠ [] ∧ decValAux 0 (id.drop 2) = some n := by
+    unfold parseU64 at hnum
+    split at hnum
+    · simp at hnum
+    · rename_i hne
+      split at hnum
+      · rename_i v hv
+        split at hnum
+        · cases hnum
+          exact ⟨by assumption, by intro e; rw [e] at hne; simp at hne, hv⟩
+        · simp at hnum
+      · simp at hnum
+  have hc := digits_canonical (id.drop 2) n hlead hn.2.1 hn.2.2
+  rw [(buy_order_id_created_valid t n hpos hn.1).1, ← hc, ← hshape]
+
+-- non-vacuity (buy-order ids)
+example : createBuyOrderId .alias 18446744073709551615 =
+    some ([50, 48] ++ [49,56,52,52,54,55,52,52,48,55,51,55,48,57,53,53,49,54,49,53]) := by decide
+example : isValidBuyOrderId ([49, 48] ++ [49,56,52,52,54,55,52,52,48,55,51,55,48,57,53,53,49,54,49,54]) = false := by
+  decide
+
+/-! ## IRO denoms and plan keys (x/iro) -/
+
+/-- C19 "IRO token denoms round-trip": `RollappIDFromIRODenom(IRODenom(r)) = (r, true)` for every r -/
+theorem iro_denom_roundtrip (r : Bytes) : rollappIDFromIRODenom (iroDenom r) = some r := by
+  simp only [rollappIDFromIRODenom, cutPrefix, iroDenom, isPrefix_append, if_true]
+  rw [List.drop_left' rfl]
+
+/-- distinct rollapp ids have distinct IRO denoms -/
+theorem iro_denom_injective (r r' : Bytes) (h : iroDenom r = iroDenom r') : r = r' := by
+  simpa [iroDenom] using h
+
+/-- a denom names a rollapp exactly when it is that rollapp's IRO denom (one and only one object) -/
+theorem iro_denom_decode_iff (d r : Bytes) : rollappIDFromIRODenom d = some r ↔ d = iroDenom r := by
+  constructor
+  · intro h
+    simp only [rollappIDFromIRODenom, cutPrefix] at h
+    split at h
+    · rename_i hp
+      obtain ⟨x, e⟩ := (isPrefix_iff _ _).1 hp
+      subst e
+      simp only [Option.some.injEq] at h
+      rw [List.drop_left' rfl] at h
+      subst h; rfl
+    · simp at h
+  · rintro rfl; exact iro_denom_roundtrip r
+
+/-- plan keys and plans-by-rollapp keys are injective in their component -/
+theorem plan_key_injective (a b : Bytes) (h : planKey a = planKey b) : a = b := by
+  simpa [planKey] using h
+theorem plans_by_rollapp_key_injective (a b : Bytes) (h : plansByRollappKey a = plansByRollappKey b) : a = b := by
+  simpa [plansByRollappKey] using h
+
+/-- plan ids (every natural, hence every uint64) get distinct store keys -/
+theorem plan_key_by_id_injective (a b : Nat) (h : planKeyById a = planKeyById b) : a = b :=
+  decStr_inj a b (plan_key_injective _ _ h)
+
+/-- the IRO store's families (plan 0x01, plans-by-rollapp 0x02, last-plan-id 0x03, params 0x04) never collide -/
+theorem iro_families_disjoint (a b : Bytes) :
+    planKey a ≠ plansByRollappKey b ∧ planKey a ≠ [3] ∧ planKey a ≠ [4] ∧
+    plansByRollappKey b ≠ [3] ∧ plansByRollappKey b ≠ [4] := by
+  simp [planKey, plansByRollappKey]
+
+-- non-vacuity (IRO)
+example : rollappIDFromIRODenom [73, 82, 79, 47, 114, 95, 49, 45, 49] = some [114, 95, 49, 45, 49] ∧
+    rollappIDFromIRODenom [73, 82, 79, 120] = none := by decide
+
+/-! ## Lockup reference keys (x/lockup): `combineKeys` joins with the separator 0xFF
+
+A lock reference is stored under `U FF family FF [owner FF] [denom FF] subkey FF be64(lockID)` where
+`U` = 0x03 (not unlocking) / 0x04 (unlocking), `subkey` = duration key `06 FF be64(d)` or time key
+`05 be64(29) formatted-time`.  Scans (iterator.go) are prefix scans or ranges between such keys.
+Hypotheses used, stated where needed: denoms contain no byte 0xFF (the SDK's denom regex is ASCII);
+owner addresses of the two entries have equal length (all 20-byte, or all 32-byte). -/
+
+/-- C19 "sort numerically" (duration): for non-negative int64 durations the duration keys sort as the durations -/
+theorem lockup_duration_key_order (d d' : Int) (h0 : 0 ≤ d) (h0' : 0 ≤ d') (h : d < 2 ^ 63) (h' : d' < 2 ^ 63) :
+    lexLt (lkDurationKey d) (lkDurationKey d') = decide (d < d') := by
+  rw [lkDurationKey_eq d h0, lkDurationKey_eq d' h0']
+  simp only [lexLt, Nat.lt_irrefl, if_false]
+  rw [lexLt_be64 _ _ (by omega) (by omega)]
+  by_cases hd : d < d'
+  · have : d.toNat < d'.toNat := by omega
+    simp [hd, this]
+  · have : ¬ d.toNat < d'.toNat := by omega
+    simp [hd, this]
+
+/-- the edge, stated: `getDurationKey` clamps negative durations, so every negative duration shares the key of 0 -/
+theorem lockup_duration_key_negative (d : Int) (h : d < 0) : lkDurationKey d = lkDurationKey 0 := by
+  simp [lkDurationKey, h]
+
+/-- C19 "sort by time" (lockup): time keys sort chronologically for in-range times -/
+theorem lockup_time_key_order (a b : TimeF) (ha : a.InRange) (hb : b.InRange) :
+    lexLt (lkTimeKey a) (lkTimeKey b) = lexLt a.fields b.fields := by
+  rw [lkTimeKey_eq a ha, lkTimeKey_eq b hb, lexLt_append_left, lexLt_fmtTime a b ha hb]
+
+theorem lockup_time_key_injective (a b : TimeF) (ha : a.InRange) (hb : b.InRange)
+    (h : lkTimeKey a = lkTimeKey b) : a = b := by
+  rw [lkTimeKey_eq a ha, lkTimeKey_eq b hb] at h
+  exact fmtTime_inj a b ha hb (List.append_cancel_left h)
+
+/-- the reference keys of a lock are exactly: the four duration-indexed families (0x07 all, 0x08 by
+    owner, 0x09 by denom, 0x0A by owner and denom) and the four time-indexed ones (0x0B..0x0E) -/
+theorem lock_ref_keys_mem (l : LockK) (k : Bytes) :
+    k ∈ lockRefKeys l ↔
+      k = combineKeys [[7], lkDurationKey l.duration] ∨
+      k = combineKeys [[8], l.owner, lkDurationKey l.duration] ∨
+      (∃ dn ∈ l.denoms, k = combineKeys [[9], dn, lkDurationKey l.duration] ∨
+        k = combineKeys [[10], l.owner, dn, lkDurationKey l.duration]) ∨
+      k = combineKeys [[11], lkTimeKey l.endTime] ∨
+      k = combineKeys [[12], l.owner, lkTimeKey l.endTime] ∨
+      (∃ dn ∈ l.denoms, k = combineKeys [[13], dn, lkTimeKey l.endTime] ∨
+        k = combineKeys [[14], l.owner, dn, lkTimeKey l.endTime]) := by
+  simp only [lockRefKeys, durationLockRefKeys, List.mem_append, List.mem_cons, List.mem_flatMap,
+    List.not_mem_nil, or_false]
+  constructor
+  · rintro ((((h | h) | ⟨dn, hd, h⟩) | h | h) | ⟨dn, hd, h⟩)
+    · exact Or.inl h
+    · exact Or.inr (Or.inl h)
+    · exact Or.inr (Or.inr (Or.inl ⟨dn, hd, h⟩))
+    · exact Or.inr (Or.inr (Or.inr (Or.inl h)))
+    · exact Or.inr (Or.inr (Or.inr (Or.inr (Or.inl h))))
+    · exact Or.inr (Or.inr (Or.inr (Or.inr (Or.inr ⟨dn, hd, h⟩))))
+  · rintro (h | h | ⟨dn, hd, h⟩ | h | h | ⟨dn, hd, h⟩)
+    · exact Or.inl (Or.inl (Or.inl (Or.inl h)))
+    · exact Or.inl (Or.inl (Or.inl (Or.inr h)))
+    · exact Or.inl (Or.inl (Or.inr ⟨dn, hd, h⟩))
+    · exact Or.inl (Or.inr (Or.inl h))
+    · exact Or.inl (Or.inr (Or.inr h))
+    · exact Or.inr ⟨dn, hd, h⟩
+
+/-- **the end-blocker's matured-locks scan** `LockIteratorBeforeTime(ctx, T)` returns the time
+    reference of an unlocking lock exactly when its end time is ≤ T -/
+theorem lockup_matured_scan_exact (T t : TimeF) (id : Nat) (hT : T.InRange) (ht : t.InRange) :
+    inRangeO (iterBeforeTime (lkFamilyPrefix true 11 []) T).1 (iterBeforeTime (lkFamilyPrefix true 11 []) T).2
+      (lockRefStoreKey true (combineKeys [[11], lkTimeKey t]) id) = !(lexLt T.fields t.fields) := by
+  have hend : prefixEnd (combineKeys [[4, 255, 11], lkTimeKey T]) =
+      some ([4, 255, 11, 255] ++ incLast (lkTimeKey T)) := by
+    have := prefixEnd_incLast [4, 255, 11, 255] (lkTimeKey T) (lkTimeKey_ne_nil T) (lkTimeKey_lt255 T hT)
+    simpa [combineKeys] using this
+  have hk : lockRefStoreKey true (combineKeys [[11], lkTimeKey t]) id =
+      [4, 255, 11] ++ (255 :: (lkTimeKey t ++ 255 :: be64 id)) := by
+    simp [lockRefStoreKey, combineKeys, unlockingPrefix]
+  have hp : lkFamilyPrefix true 11 [] = [4, 255, 11] := by simp [lkFamilyPrefix, combineKeys, unlockingPrefix]
+  simp only [iterBeforeTime, inRangeO, hk, hp, hend, lexLe, lexLt_self_append, Bool.not_false, Bool.true_and]
+  have : lexLt ([4, 255, 11] ++ 255 :: (lkTimeKey t ++ 255 :: be64 id)) ([4, 255, 11, 255] ++ incLast (lkTimeKey T))
+      = lexLt (lkTimeKey t ++ 255 :: be64 id) (incLast (lkTimeKey T)) := by simp [lexLt]
+  rw [this, timeKey_tail_lt T t hT ht]
+
+/-- the per-owner variant `AccountLockIteratorBeforeTime(addr, T)` (what `GetAccountUnlockableCoins`
+    reads): returns an entry of owner `B` with end time `t` exactly when `B = A` and `t ≤ T` — for
+    owners of equal address length -/
+theorem lockup_account_before_time_scan_exact (A B : Bytes) (T t : TimeF) (id : Nat)
+    (hl : A.length = B.length) (hT : T.InRange) (ht : t.InRange) :
+    inRangeO (iterBeforeTime (lkFamilyPrefix true 12 [A]) T).1 (iterBeforeTime (lkFamilyPrefix true 12 [A]) T).2
+      (lockRefStoreKey true (combineKeys [[12], B, lkTimeKey t]) id) =
+      (decide (B = A) && !(lexLt T.fields t.fields)) := by
+  have hend : prefixEnd (combineKeys [[4, 255, 12, 255] ++ A, lkTimeKey T]) =
+      some ([4, 255, 12, 255] ++ (A ++ 255 :: incLast (lkTimeKey T))) := by
+    have := prefixEnd_incLast ([4, 255, 12, 255] ++ A ++ [255]) (lkTimeKey T) (lkTimeKey_ne_nil T) (lkTimeKey_lt255 T hT)
+    simpa [combineKeys] using this
+  have hk : lockRefStoreKey true (combineKeys [[12], B, lkTimeKey t]) id =
+      [4, 255, 12, 255] ++ (B ++ 255 :: (lkTimeKey t ++ 255 :: be64 id)) := by
+    simp [lockRefStoreKey, combineKeys, unlockingPrefix]
+  have hp : lkFamilyPrefix true 12 [A] = [4, 255, 12, 255] ++ A := by
+    simp [lkFamilyPrefix, combineKeys, unlockingPrefix]
+  simp only [iterBeforeTime, inRangeO, hk, hp, hend]
+  have := inRange_prefix [4, 255, 12, 255] A (A ++ 255 :: incLast (lkTimeKey T)) (B ++ 255 :: (lkTimeKey t ++ 255 :: be64 id))
+  simp only [inRange] at this
+  rw [this]
+  have e := eqlen_range A B (255 :: incLast (lkTimeKey T)) (255 :: (lkTimeKey t ++ 255 :: be64 id)) hl
+  simp only [inRange] at e
+  rw [e]
+  simp only [lexLt, Nat.lt_irrefl, if_false, timeKey_tail_lt T t hT ht]
+
+/-- `LockIteratorAfterTimeDenom(denom, T)` (what `GetLocksPastTimeDenom` reads): returns an entry of
+    denom `dn'` with end time `t` exactly when `dn' = dn` and `t` is strictly after `T` — for every pair
+    of denoms without the byte 0xFF, *including* denoms that extend one another -/
+theorem lockup_denom_after_time_scan_exact (dn dn' : Bytes) (T t : TimeF) (id : Nat)
+    (hne : dn ≠ []) (hd : ∀ c ∈ dn, c < 255) (hd' : ∀ c ∈ dn', c < 255) (hT : T.InRange) (ht : t.InRange) :
+    inRangeO (iterAfterTime (lkFamilyPrefix true 13 [dn]) T).1 (iterAfterTime (lkFamilyPrefix true 13 [dn]) T).2
+      (lockRefStoreKey true (combineKeys [[13], dn', lkTimeKey t]) id) =
+      (decide (dn' = dn) && lexLt T.fields t.fields) := by
+  have hstart : prefixEnd (combineKeys [lkFamilyPrefix true 13 [dn], lkTimeKey T]) =
+      some ([4, 255, 13, 255] ++ (dn ++ 255 :: incLast (lkTimeKey T))) := by
+    have := prefixEnd_incLast ([4, 255, 13, 255] ++ dn ++ [255]) (lkTimeKey T) (lkTimeKey_ne_nil T) (lkTimeKey_lt255 T hT)
+    simpa [combineKeys, lkFamilyPrefix, unlockingPrefix] using this
+  have hend : prefixEnd (lkFamilyPrefix true 13 [dn]) = some ([4, 255, 13, 255] ++ incLast dn) := by
+    have := prefixEnd_incLast [4, 255, 13, 255] dn hne hd
+    simpa [combineKeys, lkFamilyPrefix, unlockingPrefix] using this
+  have hk : lockRefStoreKey true (combineKeys [[13], dn', lkTimeKey t]) id =
+      [4, 255, 13, 255] ++ (dn' ++ 255 :: (lkTimeKey t ++ 255 :: be64 id)) := by
+    simp [lockRefStoreKey, combineKeys, unlockingPrefix]
+  simp only [iterAfterTime, inRangeO, hstart, hend, hk, Option.getD_some]
+  have := inRange_prefix [4, 255, 13, 255] (dn ++ 255 :: incLast (lkTimeKey T)) (incLast dn)
+    (dn' ++ 255 :: (lkTimeKey t ++ 255 :: be64 id))
+  simp only [inRange] at this
+  rw [this]
+  have e := sepmax_range dn dn' (incLast (lkTimeKey T)) (lkTimeKey t ++ 255 :: be64 id) hne hd hd'
+  simp only [inRange] at e
+  rw [e, lexLe, timeKey_tail_lt T t hT ht]; simp
+
+/-- `LockIteratorLongerThanDurationDenom(u, denom, d)` (what `GetLocksDenom`, the module's balance
+    invariant and `GetLocksLongerThanDurationDenom` read): returns an entry of denom `dn'` with duration
+    `d'` exactly when `dn' = dn` and `d ≤ d'` — for every pair of denoms without the byte 0xFF -/
+theorem lockup_denom_longer_duration_scan_exact (u : Bool) (dn dn' : Bytes) (d d' : Int) (id : Nat)
+    (hne : dn ≠ []) (hd : ∀ c ∈ dn, c < 255) (hd' : ∀ c ∈ dn', c < 255)
+    (h0 : 0 ≤ d) (h0' : 0 ≤ d') (h : d < 2 ^ 63) (h' : d' < 2 ^ 63) :
+    inRangeO (iterLongerDuration (lkFamilyPrefix u 9 [dn]) d).1 (iterLongerDuration (lkFamilyPrefix u 9 [dn]) d).2
+      (lockRefStoreKey u (combineKeys [[9], dn', lkDurationKey d']) id) =
+      (decide (dn' = dn) && decide (d ≤ d')) := by
+  have hend : prefixEnd (lkFamilyPrefix u 9 [dn]) = some ((unlockingPrefix u ++ [255, 9, 255]) ++ incLast dn) := by
+    have := prefixEnd_incLast (unlockingPrefix u ++ [255, 9, 255]) dn hne hd
+    simpa [combineKeys, lkFamilyPrefix] using this
+  have hstart : combineKeys [lkFamilyPrefix u 9 [dn], lkDurationKey d] =
+      (unlockingPrefix u ++ [255, 9, 255]) ++ (dn ++ 255 :: lkDurationKey d) := by
+    simp [combineKeys, lkFamilyPrefix]
+  have hk : lockRefStoreKey u (combineKeys [[9], dn', lkDurationKey d']) id =
+      (unlockingPrefix u ++ [255, 9, 255]) ++ (dn' ++ 255 :: (lkDurationKey d' ++ 255 :: be64 id)) := by
+    simp [lockRefStoreKey, combineKeys]
+  simp only [iterLongerDuration, inRangeO, hstart, hend, hk]
+  have := inRange_prefix (unlockingPrefix u ++ [255, 9, 255]) (dn ++ 255 :: lkDurationKey d) (incLast dn)
+    (dn' ++ 255 :: (lkDurationKey d' ++ 255 :: be64 id))
+  simp only [inRange] at this
+  rw [this]
+  have e := sepmax_range dn dn' (lkDurationKey d) (lkDurationKey d' ++ 255 :: be64 id) hne hd hd'
+  simp only [inRange] at e
+  rw [e, durKey_tail_le d d' h0 h0' (by omega) (by omega)]
+
+/-- C19 "a scan for one owner never returns entries of another": `AccountLockIterator(u, A)` (what
+    `GetAccountPeriodLocks`, `GetAccountLockedCoins` and begin-unlock-all read) matches an entry of owner
+    `B` exactly when `B = A` — for owners of equal address length -/
+theorem lockup_account_scan_exact_partial (u : Bool) (A B : Bytes) (d : Int) (id : Nat) (hl : A.length = B.length) :
+    isPrefix (iterPrefix (lkFamilyPrefix u 8 [A])).1 (lockRefStoreKey u (combineKeys [[8], B, lkDurationKey d]) id)
+      = decide (A = B) := by
+  have hk : lockRefStoreKey u (combineKeys [[8], B, lkDurationKey d]) id =
+      (unlockingPrefix u ++ [255, 8, 255]) ++ (B ++ 255 :: (lkDurationKey d ++ 255 :: be64 id)) := by
+    simp [lockRefStoreKey, combineKeys]
+  have hp : lkFamilyPrefix u 8 [A] = (unlockingPrefix u ++ [255, 8, 255]) ++ A := by
+    simp [lkFamilyPrefix, combineKeys]
+  simp only [iterPrefix, hk, hp]
+  rw [isPrefix_append_left, eqlen_isPrefix A B _ hl]
+
+/-- the full statement (no length hypothesis) is false: the owner prefix carries no trailing separator,
+    so the scan for a 20-byte address returns the entry of a 32-byte address that extends it (the hub's
+    address verifier accepts both lengths).  This needs a 32-byte (module/ICA) address whose first 20
+    bytes equal another account's 20-byte address, i.e. a 160-bit hash-prefix collision: recorded as an
+    assumption, not as a finding. -/
+theorem lockup_account_scan_exact_counterexample :
+    let A : Bytes := List.replicate 20 1
+    let B : Bytes := List.replicate 32 1
+    A ≠ B ∧ isPrefix (iterPrefix (lkFamilyPrefix false 8 [A])).1
+      (lockRefStoreKey false (combineKeys [[8], B, lkDurationKey 5]) 7) = true := by decide
+
+/-- `AccountLockIteratorDuration(u, A, d)` (what `GetAccountLockedDuration` reads): exactly owner `A`
+    and exactly duration `d` — for owners of equal address length -/
+theorem lockup_account_duration_scan_exact (u : Bool) (A B : Bytes) (d d' : Int) (id : Nat)
+    (hl : A.length = B.length) (h0 : 0 ≤ d) (h0' : 0 ≤ d') (h : d < 2 ^ 63) (h' : d' < 2 ^ 63) :
+    isPrefix (iterDuration (lkFamilyPrefix u 8 [A]) d).1
+      (lockRefStoreKey u (combineKeys [[8], B, lkDurationKey d']) id) = (decide (A = B) && decide (d = d')) := by
+  have hk : lockRefStoreKey u (combineKeys [[8], B, lkDurationKey d']) id =
+      (unlockingPrefix u ++ [255, 8, 255]) ++ ((B ++ 255 :: 6 :: 255 :: be64 d'.toNat) ++ 255 :: be64 id) := by
+    simp [lockRefStoreKey, combineKeys, lkDurationKey_eq d' h0']
+  have hp : combineKeys [lkFamilyPrefix u 8 [A], lkDurationKey d] =
+      (unlockingPrefix u ++ [255, 8, 255]) ++ (A ++ 255 :: 6 :: 255 :: be64 d.toNat) := by
+    simp [lkFamilyPrefix, combineKeys, lkDurationKey_eq d h0]
+  simp only [iterDuration, iterPrefix, hk, hp]
+  rw [isPrefix_append_left, eqlen_isPrefix _ _ _ (by simp [be64_length, hl])]
+  by_cases hA : A = B
+  · subst hA
+    by_cases hd : d = d'
+    · subst hd; simp
+    · have : be64 d.toNat ≠ be64 d'.toNat := fun e => hd (by
+        have := be64_inj _ _ (by omega) (by omega) e; omega)
+      simp [hd, this]
+  · have : ¬ (A ++ 255 :: 6 :: 255 :: be64 d.toNat = B ++ 255 :: 6 :: 255 :: be64 d'.toNat) := fun e =>
+      hA (List.append_inj e hl).1
+    simp [hA, this]
+
+/-- the plain per-denom prefix scans `LockIteratorDenom` / `AccountLockIteratorDenom` (and the lower
+    bound of `…BeforeTimeDenom`): exported keeper methods WITHOUT callers in the hub.  Their prefix
+    `… FF denom` has no trailing separator, so the scan for a denom also returns the entries of every
+    denom that extends it ("gamm/pool/1" returns "gamm/pool/10").  Full statement kept:
+      `isPrefix (iterPrefix (lkFamilyPrefix u 9 [dn])).1 (lockRefStoreKey u (combineKeys [[9], dn', dk]) id) = decide (dn = dn')`
+    holds for equal-length denoms (`…_partial`) and fails in general (`…_counterexample`). -/
+theorem lockup_denom_prefix_scan_exact_partial (u : Bool) (dn dn' : Bytes) (d : Int) (id : Nat)
+    (hl : dn.length = dn'.length) :
+    isPrefix (iterPrefix (lkFamilyPrefix u 9 [dn])).1 (lockRefStoreKey u (combineKeys [[9], dn', lkDurationKey d]) id)
+      = decide (dn = dn') := by
+  have hk : lockRefStoreKey u (combineKeys [[9], dn', lkDurationKey d]) id =
+      (unlockingPrefix u ++ [255, 9, 255]) ++ (dn' ++ 255 :: (lkDurationKey d ++ 255 :: be64 id)) := by
+    simp [lockRefStoreKey, combineKeys]
+  have hp : lkFamilyPrefix u 9 [dn] = (unlockingPrefix u ++ [255, 9, 255]) ++ dn := by
+    simp [lkFamilyPrefix, combineKeys]
+  simp only [iterPrefix, hk, hp]
+  rw [isPrefix_append_left, eqlen_isPrefix dn dn' _ hl]
+
+theorem lockup_denom_prefix_scan_exact_counterexample :
+    let dn : Bytes := [112, 47, 49]          -- "p/1"
+    let dn' : Bytes := [112, 47, 49, 48]     -- "p/10"
+    isPrefix (iterPrefix (lkFamilyPrefix false 9 [dn])).1
+      (lockRefStoreKey false (combineKeys [[9], dn', lkDurationKey 5]) 7) = true ∧ dn ≠ dn' := by decide
+
+-- non-vacuity (lockup): hypotheses met by a realistic denom pair that extend one another
+example : (∀ c ∈ ([112, 47, 49] : Bytes), c < 255) ∧ (∀ c ∈ ([112, 47, 49, 48] : Bytes), c < 255) := by decide
+example : inRangeO (iterLongerDuration (lkFamilyPrefix false 9 [[112, 47, 49]]) 0).1
+    (iterLongerDuration (lkFamilyPrefix false 9 [[112, 47, 49]]) 0).2
+    (lockRefStoreKey false (combineKeys [[9], [112, 47, 49, 48], lkDurationKey 5]) 7) = false ∧
+  inRangeO (iterLongerDuration (lkFamilyPrefix false 9 [[112, 47, 49]]) 0).1
+    (iterLongerDuration (lkFamilyPrefix false 9 [[112, 47, 49]]) 0).2
+    (lockRefStoreKey false (combineKeys [[9], [112, 47, 49], lkDurationKey 5]) 7) = true := by decide
+
+/-! ## x/dymns store keys -/
+
+/-- C19 "names one and only one object" for the DymNS store: the map from (family, component) to
+    store key is injective — each key family is injective in its component AND no key of one family
+    is a key of another, for all component values (all byte strings, including empty ones) -/
+theorem dymns_key_injective (a b : DymnsKey) (h : a.bytes = b.bytes) : a = b := by
+  rcases a with _ | _ | _ | _ | ⟨_, _ | _⟩ | _ | _ | _ | _ | _ | _ | _ <;> rcases b with _ | _ | _ | _ | ⟨_, _ | _⟩ | _ | _ | _ | _ | _ | _ | _ <;>
+    simp_all [DymnsKey.bytes, dymNameKey, dymNamesOwnedByAccountRvlKey,
+      configuredAddressToDymNamesIncludeRvlKey, fallbackAddressToDymNamesIncludeRvlKey, sellOrderKey,
+      keyCountBuyOrders, buyOrderKey, buyerToOrderIdsRvlKey, dymNameToBuyOrderIdsRvlKey,
+      aliasToBuyOrderIdsRvlKey, rollAppIdToAliasesKey, aliasToRollAppIdRvlKey]
+
+/-- every key carries its family's prefix … -/
+theorem dymns_key_has_family_prefix (a : DymnsKey) : isPrefix a.familyPrefix a.bytes = true := by
+  rcases a with _ | _ | _ | _ | ⟨_, _ | _⟩ | _ | _ | _ | _ | _ | _ | _ <;>
+    simp [DymnsKey.familyPrefix, DymnsKey.bytes, isPrefix, dymNameKey, dymNamesOwnedByAccountRvlKey,
+      configuredAddressToDymNamesIncludeRvlKey, fallbackAddressToDymNamesIncludeRvlKey, sellOrderKey,
+      keyCountBuyOrders, buyOrderKey, buyerToOrderIdsRvlKey, dymNameToBuyOrderIdsRvlKey,
+      aliasToBuyOrderIdsRvlKey, rollAppIdToAliasesKey, aliasToRollAppIdRvlKey]
+
+/-- … and a whole-family iteration (prefix scan with a family's `KeyPrefix…`) never returns a key of
+    another family: the family prefixes are pairwise prefix-free -/
+theorem dymns_family_scan_exact (a b : DymnsKey) (h : isPrefix a.familyPrefix b.bytes = true) :
+    a.family = b.family := by
+  rcases a with _ | _ | _ | _ | ⟨_, _ | _⟩ | _ | _ | _ | _ | _ | _ | _ <;> rcases b with _ | _ | _ | _ | ⟨_, _ | _⟩ | _ | _ | _ | _ | _ | _ | _ <;>
+    simp_all [DymnsKey.bytes, DymnsKey.familyPrefix, DymnsKey.family, isPrefix, dymNameKey, dymNamesOwnedByAccountRvlKey,
+      configuredAddressToDymNamesIncludeRvlKey, fallbackAddressToDymNamesIncludeRvlKey, sellOrderKey,
+      keyCountBuyOrders, buyOrderKey, buyerToOrderIdsRvlKey, dymNameToBuyOrderIdsRvlKey,
+      aliasToBuyOrderIdsRvlKey, rollAppIdToAliasesKey, aliasToRollAppIdRvlKey]
+
+/-- buy-order records: distinct (type, number) pairs get distinct store keys (id creation composed
+    with `BuyOrderKey`) -/
+theorem dymns_buy_order_key_injective (t t' : AssetType) (n n' : Nat) (i i' : Bytes)
+    (h : createBuyOrderId t n = some i) (h' : createBuyOrderId t' n' = some i')
+    (e : buyOrderKey i = buyOrderKey i') : t = t' ∧ n = n' := by
+  have : i = i' := by simpa [buyOrderKey] using e
+  subst this
+  exact buy_order_id_injective t t' n n' i h h'
+
+-- non-vacuity (dymns): a Dym-Name "a" and an alias "a" have different sell-order keys; the empty
+-- component is allowed
+example : (DymnsKey.sellOrder [97] .name).bytes ≠ (DymnsKey.sellOrder [97] .alias).bytes := by decide
+example : (DymnsKey.dymName []).bytes = [1] := rfl
 
 end DymVerif.C19
